@@ -209,19 +209,19 @@ ADDENDA = {
     "C03": (" Also: the enumeration tables pinned in vf/ref_enums.json; Windows-1252 files; one re-used OFXTree for the v1 renderings; a parsed tree edited in place and converted again; base classes looked at and refusals provoked first.", None),
     "C04": (" Also: the class-specific rules of 16 classes (reference written from the specification text), blank / empty group members, tokens of other enumerations, application subclasses, explicit-None keywords.", "Values are violated one constraint at a time; the class-specific rules are checked against vf.ref_schema.custom_problems."),
     "C05": (" Also: bodies of 144-180 KB with multi-byte characters at every alignment, text that is valid UTF-8 in a single-byte charset, CR-style leading blank lines, files again with the loggers at DEBUG, a file parsed again after the returned header was edited.", "Body alphabet of 12 bodies; a byte-order mark is not among the layouts the property names and is not demanded."),
-    "C06": (" Also: logging at DEBUG and configuration by attribute assignment on a used client as configuration dimensions; request lists holding equal requests; call histories (<=2, thorough 3, of 7 disturbing calls) before a composition.", None),
+    "C06": (" Also: logging at DEBUG and configuration by attribute assignment on a used client as configuration dimensions; request lists holding equal requests; call histories (<=2, thorough 3, of 7 disturbing calls) before a composition; dates in one zone object with daylight saving time; non-ASCII credentials.", None),
     "C07": (" Also: unknown items named like tags of other classes, like attributes of the class, digit-initial; an unknown / vendor aggregate wrapping a copy of each child; the same item twice; vendor items again at DEBUG. Unknown elements INTU.<NAME> / FWD<NAME> for every name the class declares; unknown aggregates with vendor-prefixed content.", None),
     "C08": (" Also: CDATA rendering; faults in front of the root; control characters; undecodable bytes in / behind end tags; files re-parsed by path after a same-length overwrite; a re-used OFXTree; the text fed in three pieces.", "Single faults only; tag/data alphabets as in C02; pieces are cut in front of aggregate start tags only (the regex tokenizer works per feed() call)."),
-    "C09": (" Also: zones whose offset depends on the date (one shared tzinfo, both orders, the last half millisecond before a change, both passes of a repeated hour); the notations through ofxget's date options; date-times through the client's statement requests.", None),
+    "C09": (" Also: zones whose offset depends on the date (one shared tzinfo, both orders, the last half millisecond before a change, both passes of a repeated hour); the notations through ofxget's date options; date-times through the client's statement requests; the name-only offset [-:TZ] for the eight US zone names in every order of two and all in a row on one converter.", None),
     "C10": (" Also: OneOf over the library's currency / language / country tables and every enumeration converter declared by a model class, against the pinned tables. Years 100, 999, 1000; the broker form [-:TZ] for all zone names in a row on one converter.", None),
     "C11": (" Also: float / tuple decimals, padded and entity-like strings, tokens of other enumerations (accepted there first), fused code-table tokens, zones with single-digit offset minutes; failing library activity first. Date-times with years below 1000.", None),
-    "C12": (" Also: stray non-ASCII bytes in field values; versions through OFXClient.serialize / request_profile overrides; headers edited by assignment and rendered again.", None),
+    "C12": (" Also: stray non-ASCII bytes in field values; versions through OFXClient.serialize / request_profile overrides; headers edited by assignment and rendered again; the header of ONE client across per-call version overrides a, b, a for every ordered pair of supported versions.", None),
     "C13": (" Also: every probe a second time with the library loggers at DEBUG; base classes looked at first.", None),
-    "C14": (" Also: events for closing-statement, credit-card and empty statement requests and for a server that never answers; profile variants (banking only, moving URL); a second client without a cookie jar; a client re-configured by assignment between requests; case-sensitive URLs.", None),
-    "C15": (" Also: a second live client of the same institution in the history search (21 events), the search again at DEBUG; a re-pointed client and ORG-only / FID-only pairs in the two-server phase; schedules at line granularity inside Client.py.", None),
+    "C14": (" Also: events for closing-statement, credit-card and empty statement requests and for a server that never answers or answers 307 / 308 with another host (the POST must not be sent again); profile variants (banking only, moving URL); a second client without a cookie jar; a client re-configured by assignment between requests; case-sensitive URLs.", None),
+    "C15": (" Also: a second live client of the same institution in the history search (21 events), the search again at DEBUG; a re-pointed client and ORG-only / FID-only pairs in the two-server phase; schedules at line granularity inside Client.py; successive profile versions stamped in four time zones (incl. -3:30, -9:30).", None),
     "C16": (" Also: shapes with falsy values, the MAXS shape at DEBUG, copies of read-back instances, shortcuts re-read after the tree was edited, wrappers without a statement. An unset (None) name of a present holder must read as None.", None),
     "C17": (" As built: 52 operations (a second client sharing the ORG, write-look-write of a response with two security lists; documents, trees, converters probed wide / narrow, end-tag-less writer, a shared client with per-call overrides, header edited between parses, ofxget readers given non-OFX answers, failing parses).", "2-3 threads; line, call and first-visit granularities as listed in the evidence; C extensions are atomic to the scheduler; capped pairs are counted in the evidence."),
-    "C18": ("", None),
+    "C18": (" Also: the client ofxget builds from the merged settings (init_client) carries the value in effect for each of 14 options.", None),
     "C19": (" Also: --all for a configured nickname (by URL or OFX Home id): every subset of configured types without an ACTIVE account, ids with blanks, one number under several types, runs with -v -v.", "One bank id / broker id per run; --all runs use --skipprofile."),
     "C20": (" Also: every function x every class of refused argument followed by a re-check of 12 valid ids; consonants and digits as replacement check characters.", None),
 }
